@@ -2,7 +2,7 @@ import dataclasses
 from abc import ABC, abstractmethod
 from dataclasses import dataclass
 from datetime import datetime, timedelta
-from typing import List, Set, Callable
+from typing import Dict, List, Set, Callable
 
 from pjplan import Task, WBS, IResource, Resource
 from pjplan.utils import TextTable, GREEN, YELLOW, GREY, RED
@@ -13,7 +13,7 @@ def _validate_graph_isolation(project: WBS):
 
     for t in all_tasks.values():
         for pr in t.predecessors:
-            if pr.id not in all_tasks and (not pr.start or not pr.end):
+            if all_tasks.get(pr.id) is not pr and (not pr.start or not pr.end):
                 raise RuntimeError(
                     "Task {t.id} ({t.name}) has predecessor {pr.id} ({pr.name}) w/o dates and outside wbs"
                 )
@@ -22,20 +22,21 @@ def _validate_graph_isolation(project: WBS):
 def _check_loops(project: WBS):
     validated = set()
     for t in project.tasks:
-        _check_loops_from_task(t, set(), validated)
+        _check_loops_from_task(t, {}, validated)
 
 
-def _check_loops_from_task(task: Task, visited_tasks: Set[int], validated: Set[int]):
-    if task.id in validated:
+def _check_loops_from_task(task: Task, visited_tasks: Dict[int, int], validated: Set[int]):
+    # tasks are told apart by object: a task outside the WBS may carry the id of a member
+    if id(task) in validated:
         return
 
-    if task.id in visited_tasks:
+    if id(task) in visited_tasks:
         raise RuntimeError(
             "Found circle",
-            [str(t) + "-->" for t in visited_tasks] + [str(task.id) + ":" + str(task.name)]
+            [str(t) + "-->" for t in visited_tasks.values()] + [str(task.id) + ":" + str(task.name)]
         )
 
-    visited_tasks.add(task.id)
+    visited_tasks[id(task)] = task.id
 
     for s in task.predecessors:
         _check_loops_from_task(s, visited_tasks, validated)
@@ -48,8 +49,8 @@ def _check_loops_from_task(task: Task, visited_tasks: Set[int], validated: Set[i
         for s in p.predecessors:
             _check_loops_from_task(s, visited_tasks, validated)
 
-    visited_tasks.remove(task.id)
-    validated.add(task.id)
+    del visited_tasks[id(task)]
+    validated.add(id(task))
 
 
 @dataclass(frozen=True)
@@ -252,7 +253,7 @@ class ForwardScheduler(IScheduler):
             resource_usage: _ResourceUsage,
             calculated: List[int]
     ):
-        if _task.id in calculated:
+        if id(_task) in calculated:
             return
 
         # predecessors of parent tasks are predecessors of this task too
@@ -317,7 +318,7 @@ class ForwardScheduler(IScheduler):
                 else:
                     _task.end = max([t.end for t in _task.children if t.end is not None])
 
-        calculated.append(_task.id)
+        calculated.append(id(_task))
 
     def calc(self, wbs: WBS) -> Schedule:
         _validate_graph_isolation(wbs)
@@ -432,7 +433,7 @@ class BackwardScheduler(IScheduler):
             resource_usage: _ResourceUsage,
             calculated: List[int]
     ):
-        if _task.id in calculated:
+        if id(_task) in calculated:
             return
 
         # successors of parent tasks are successors of this task too
@@ -495,7 +496,7 @@ class BackwardScheduler(IScheduler):
             else:
                 _task.start = min([t.start for t in _task.children if t.start is not None])
 
-        calculated.append(_task.id)
+        calculated.append(id(_task))
 
     @staticmethod
     def __prepare_tasks(project: WBS):
